@@ -196,10 +196,7 @@ func init() {
 			default:
 				panic(x.fault("unknown domain"))
 			}
-			if x.feas != nil {
-				x.feas.Close()
-				x.feas = nil
-			}
+			x.closeFeas()
 			return ret1(st, nil)
 		},
 		"Unwind": func(x *Exec, st *State, fr *Frame, args []Value, site ssa.Instruction) []Result {
